@@ -1,7 +1,13 @@
 package c01
 
 import (
+	"bytes"
+	"fmt"
+	"io"
 	"strings"
+
+	jsonv2 "github.com/go-json-experiment/json"
+	"github.com/go-json-experiment/json/jsontext"
 
 	"verif/internal/enum"
 	"verif/internal/evid"
@@ -99,3 +105,77 @@ func padSweep(r *evid.Run) {
 }
 
 var _ = views.B
+
+// abandoned: a Decoder (an explicitly reused one, and the pooled ones behind Value.IsValid / Unmarshal) whose previous
+// input was abandoned at any point - every byte prefix of nested documents, i.e. with any number of objects still open -
+// must accept a following valid text that repeats the same names at the same nesting levels.
+func abandoned(r *evid.Run) {
+	as := []string{`{"x":{"y":{"z":1,"w":2},"v":[{"z":3,"y":4}]},"u":{"x":5}}`, `[{"a":{"b":{"c":{"d":1}}}},{"a":2}]`, `{"k":1,"k":2}`, `{"p":{"q":{"r":"s\"`}
+	bs := []string{`{"x":{"y":{"z":5,"w":6},"v":[{"y":7,"z":8}],"u":9},"u":{"x":0,"y":{"z":1}}}`, `[{"a":{"b":{"c":{"d":1},"d":2},"c":3},"b":4},{"a":{"a":{"a":{}}}}]`, `{"p":{"q":{"r":1,"q":2},"p":3},"q":{"p":{"q":4}}}`}
+	var n int64
+	sets := optSets()
+	for _, a := range as {
+		for i := 0; i <= len(a); i++ {
+			prefix := []byte(a[:i])
+			for si := range sets {
+				s := &sets[si]
+				for _, b := range bs {
+					n++
+					msg := func() (msg string) {
+						defer func() {
+							if p := recover(); p != nil {
+								msg = fmt.Sprintf("library panic: %v", p)
+							}
+						}()
+						// explicitly reused Decoder, abandoned token-wise and value-wise
+						for mode := 0; mode < 2; mode++ {
+							d := jsontext.NewDecoder(bytes.NewReader(prefix), s.opts...)
+							for {
+								var err error
+								if mode == 0 {
+									_, err = d.ReadToken()
+								} else {
+									_, err = d.ReadValue()
+								}
+								if err != nil {
+									break
+								}
+							}
+							d.Reset(bytes.NewReader([]byte(b)), s.opts...)
+							for {
+								if _, err := d.ReadToken(); err != nil {
+									if err != io.EOF {
+										return fmt.Sprintf("a Decoder reused (Reset) after abandoning %q rejects the valid text %s token-wise: %v", prefix, b, err)
+									}
+									break
+								}
+							}
+							d.Reset(bytes.NewReader([]byte(b)), s.opts...)
+							if _, err := d.ReadValue(); err != nil {
+								return fmt.Sprintf("a Decoder reused (Reset) after abandoning %q rejects the valid text %s: %v", prefix, b, err)
+							}
+						}
+						// pooled decoders
+						jsontext.Value(prefix).IsValid(s.opts...)
+						var v any
+						jsonv2.Unmarshal(prefix, &v, s.jopts...)
+						if !jsontext.Value(b).IsValid(s.opts...) {
+							return fmt.Sprintf("after IsValid / Unmarshal of %q, Value.IsValid rejects the valid text %s", prefix, b)
+						}
+						var v2 any // a fresh target: Unmarshal merges into what the failed call left behind
+						if err := jsonv2.Unmarshal([]byte(b), &v2, s.jopts...); err != nil {
+							return fmt.Sprintf("after IsValid / Unmarshal of %q, Unmarshal rejects the valid text %s: %v", prefix, b, err)
+						}
+						return ""
+					}()
+					if msg != "" {
+						r.Violation(fmt.Sprintf("c01|abandoned|%q|%s|%d", prefix, b, si), msg, Case{Input: []byte(b), InputText: b, AllowUTF8: s.utf8, AllowDup: s.dup}, nil)
+					}
+				}
+			}
+		}
+	}
+	r.Evaluations.Add(n * 6)
+	r.Nontrivial.Add(n)
+	r.Bound("abandoned inputs: every byte prefix of %d nested documents, abandoned token-wise / value-wise / through IsValid and Unmarshal, followed by %d valid texts repeating the same names at the same levels x 5 option sets: the following text is accepted", len(as), len(bs))
+}
